@@ -8,6 +8,6 @@ CONSTANTS
   Ops = {"Merge"}
   MaxDepth = 2
   MaxWs = 1000
-INVARIANTS C04_RegionPreserved C04_Exact C04_Idempotent
+INVARIANTS C04_StepsAssemble C04_RegionPreserved C04_Exact C04_Idempotent
 PROPERTIES C04_SecondMergeStutters
 CHECK_DEADLOCK FALSE
